@@ -3,6 +3,9 @@ import GridVerif.Model.Elem
 import GridVerif.Model.Coulomb
 import GridVerif.Gen.Coulomb
 import GridVerif.Gen.CoulombParams
+import GridVerif.Model.CoulombPy
+import GridVerif.Gen.CoulombPotential
+import GridVerif.Gen.CoulombLoader
 
 namespace GridVerif.Driver.C17
 open GridVerif.Proto GridVerif.Coulomb GridVerif.Gen.Coulomb
@@ -12,24 +15,19 @@ def pBool : String → Option Bool
   | "1" => some true
   | _ => none
 
-/-- rows of an `n × 3` matrix as points. -/
-def toP3 : List (List Float) → Option (List (P3 Float))
-  | [] => some []
-  | [x, y, z] :: rest => (toP3 rest).map ((x, y, z) :: ·)
+/-- Parse an array: `k d₁ … d_k  n x₁ … x_n` (shape, then row-major data). -/
+def pNd (toks : List String) : Option (NdArg Float × List String) := do
+  let (sh, t1) ← pVec pNat toks
+  let (xs, t2) ← pVec pFloat t1
+  pure (⟨sh, xs⟩, t2)
+
+/-- Parse an optional array: `0` (= `None`) or `1 <array>`. -/
+def pOptNd : List String → Option (Option (NdArg Float) × List String)
+  | "0" :: rest => some (none, rest)
+  | "1" :: rest => (pNd rest).map fun (a, t) => (some a, t)
   | _ => none
 
-def mkGauss : List (P3 Float) → List Float → List Float → Option (List (Gauss Float))
-  | [], [], [] => some []
-  | c :: cs, k :: ks, a :: as => (mkGauss cs ks as).map (⟨c, k, a⟩ :: ·)
-  | _, _, _ => none
-
-/-- Parse `centres(mat) coeffs(vec) alphas(vec)`. -/
-def pGaussians (toks : List String) : Option (List (Gauss Float) × List String) := do
-  let (m, t1) ← pMat pFloat toks
-  let (ks, t2) ← pVec pFloat t1
-  let (as, t3) ← pVec pFloat t2
-  let gs ← mkGauss (← toP3 m) ks as
-  pure (gs, t3)
+def sNd (a : NdArg Float) : String := sNats a.shape ++ " " ++ sFloats a.data
 
 /-- Decimal `(m, e)` = `m × 10^e` of the JSON file as the double Python's `float()` gives
 (up to the last-bit rounding of `Float.ofScientific`). -/
@@ -53,34 +51,46 @@ def handle : List String → Option String
   | ["C17.p", r, a, n] => scalarOp coulombGaussianP coulombGaussianPRejects r a n
   | ["C17.pcorr", r, a, n] => scalarOp coulombGaussianPCorrected coulombGaussianPRejects r a n
   | "C17.pot" :: n :: rest => do
+    -- the GENERATED `coulomb_potential` on arrays with explicit shapes (malformed shapes included)
     let n ← pBool n
-    let (pm, t1) ← pMat pFloat rest
-    let pts ← toP3 pm
-    let (ss, t2) ← pGaussians t1
-    match t2 with
-    | ["0"] =>
-      match coulombPotential n pts ss [] with
-      | some v => pure ("ok " ++ sFloats v)
-      | none => pure "value-error"
-    | "1" :: t3 =>
-      let (ps, t4) ← pGaussians t3
-      if t4 ≠ [] then none else
-      match coulombPotential n pts ss ps with
-      | some v => pure ("ok " ++ sFloats v)
-      | none => pure "value-error"
-    | _ => none
-  | "C17.load" :: "sym" :: rest => do
-    let (cs, tl) ← pVec pNat rest
-    if tl ≠ [] then none else
-    if cs.any (· ≥ 128) then none else
-    match load Gen.CoulombParams.elements Gen.CoulombParams.table (.sym (cs.map Char.ofNat)) with
-    | some (c, a) => pure ("ok " ++ sFloats (c.map decToFloat) ++ " " ++ sFloats (a.map decToFloat))
-    | none => pure "value-error"
-  | ["C17.load", "num", n] => do
-    let n ← pInt n
-    match load Gen.CoulombParams.elements Gen.CoulombParams.table (.num n) with
-    | some (c, a) => pure ("ok " ++ sFloats (c.map decToFloat) ++ " " ++ sFloats (a.map decToFloat))
-    | none => pure "value-error"
+    let (points, t1) ← pNd rest
+    let (centers_s, t2) ← pNd t1
+    let (coeffs_s, t3) ← pNd t2
+    let (alphas_s, t4) ← pNd t3
+    let (centers_p, t5) ← pOptNd t4
+    let (coeffs_p, t6) ← pOptNd t5
+    let (alphas_p, t7) ← pOptNd t6
+    if t7 ≠ [] then none else
+    if !(points.WF && centers_s.WF && coeffs_s.WF && alphas_s.WF
+          && [centers_p, coeffs_p, alphas_p].all fun a => match a with | some x => decide x.WF | none => true) then none else
+    match Gen.CoulombPotential.coulomb_potential points centers_s coeffs_s alphas_s centers_p coeffs_p alphas_p n with
+    | .ok v => pure ("ok " ++ sNd v)
+    | .error e => e.tag
+  | "C17.load" :: cache :: kind :: rest => do
+    -- the GENERATED loader, started with an empty (`cold`) or a filled (`warm`) module-level cache;
+    -- the answer ends with the state of the cache after the call (`0` = still `None`)
+    let c0 : Cache ← match cache with
+      | "cold" => some none
+      | "warm" => some (some Gen.CoulombParams.json)
+      | _ => none
+    let el : PyObj ← match kind, rest with
+      | "str", _ => do
+        let (cs, tl) ← pVec pNat rest
+        if tl ≠ [] then none else
+        if cs.any (· ≥ 128) then none else
+        pure (PyObj.str (String.ofList (cs.map Char.ofNat)))
+      | "int", [n] => (pInt n).map PyObj.int
+      | "npint", [n] => (pInt n).map PyObj.npInt
+      | "bool", [b] => (pBool b).map PyObj.bool
+      | "other", [] => some PyObj.other
+      | _, _ => none
+    let (r, c1) := (Gen.CoulombLoader.load_atomic_gaussian_params Gen.CoulombLoader.env el).run c0
+    let st := match c1 with
+      | none => " 0"
+      | some t => if t == Gen.CoulombParams.json then " 1" else " 2"
+    match r with
+    | .ok (c, a) => pure ("ok " ++ sFloats (c.map decToFloat) ++ " " ++ sFloats (a.map decToFloat) ++ st)
+    | .error e => e.tag.map (· ++ st)
   | _ => none
 
 end GridVerif.Driver.C17
